@@ -49,6 +49,8 @@ def ws2dwcv(y, nodata, llas, robust, out, lopt):
     d_eigs[0] = 1e-15
 
     if n > 4:
+        # masked cells may hold nan / inf: keep them out of the residuals
+        y = np.where(w == 0, 0.0, y)
         z = np.zeros(m)
         r_weights = np.ones(m)
 
